@@ -1,0 +1,27 @@
+//go:build verif
+
+package auth
+
+import "sync"
+
+// VerifSetYield installs a function that is called (under the verif tag only) at named points
+// inside the session code, so that a harness can interleave another operation exactly there.
+var (
+	verifYieldMu sync.Mutex
+	verifYieldFn func(point string)
+)
+
+func VerifSetYield(fn func(point string)) {
+	verifYieldMu.Lock()
+	verifYieldFn = fn
+	verifYieldMu.Unlock()
+}
+
+func verifYield(point string) {
+	verifYieldMu.Lock()
+	fn := verifYieldFn
+	verifYieldMu.Unlock()
+	if fn != nil {
+		fn(point)
+	}
+}
